@@ -1,6 +1,7 @@
 SPECIFICATION GSpec
 CONSTANTS N = 1
           DOUBLE = TRUE
+          ARITY0 = FALSE
 CHECK_DEADLOCK FALSE
 INVARIANT Emit
 INVARIANT IdsUnique
